@@ -552,9 +552,46 @@ func rowsEvent(database, table string, tableID uint64, typ replication.EventType
 	}
 }
 
-func tableMapEvent(database, table string, tableID uint64) *replication.BinlogEvent {
+func tableMapEvent(database, table string, tableID uint64, columnCount int) *replication.BinlogEvent {
 	return &replication.BinlogEvent{
 		Header: &replication.EventHeader{EventType: replication.TABLE_MAP_EVENT},
-		Event:  &replication.TableMapEvent{TableID: tableID, Schema: []byte(database), Table: []byte(table)},
+		Event:  &replication.TableMapEvent{TableID: tableID, Schema: []byte(database), Table: []byte(table), ColumnCount: uint64(columnCount)},
 	}
+}
+
+// reorders are column permutations that keep the column count and move
+// columns only onto positions of a type the decoder's value still scans into
+// without error (int widths among each other, string <-> string / []byte,
+// float32 <-> float64), so that decoding with a stale column map is silent.
+var reorders = map[string][]string{
+	"pairs":  {"n", "v", "b", "a", "ok", "when"},
+	"tinies": {"data", "cnt", "k"},
+	"wides": {"id", "i16", "i32", "u8", "u32", "u64", "i8", "f64", "f32", "flag", "mood", "name", "blob", "at", "p_i", "p_s", "p_b", "p_t",
+		"p_f", "note", "txt", "bin", "js"},
+}
+
+// sentinelFilters are filters on a column that a reorder moves.
+func sentinelFilter(r *rand.Rand, table string) filterDesc {
+	var col string
+	var v interface{}
+	switch table {
+	case "pairs":
+		if r.Intn(2) == 0 {
+			col, v = "n", int64(r.Intn(3))
+		} else {
+			col, v = "a", int32(r.Intn(3))
+		}
+	case "tinies":
+		col, v = "k", fmt.Sprintf("k%d", r.Intn(5))
+	default:
+		switch r.Intn(3) {
+		case 0:
+			col, v = "i8", []int8{-1, 0, 1, 127}[r.Intn(4)]
+		case 1:
+			col, v = "name", []string{"a", "b", ""}[r.Intn(3)]
+		default:
+			col, v = "u8", []uint8{0, 1, 200}[r.Intn(3)]
+		}
+	}
+	return filterDesc{filter: sqlgen.Filter{col: v}, reps: map[string]string{col: "own"}}
 }
